@@ -23,6 +23,17 @@ CLAIMS = {
                 'bytes; every reader branch consumes exactly field.size bytes.',
         not_decided='that the persisted set is sufficient for bit-wise continuation of every integrator; padding bytes; the continuation itself (runtime)',
         design_ref='3/C05'),
+    'C09': dict(
+        module='c09', level='other',
+        technique='operator-word equivalence: sequences extracted by constant propagation from part1/part2/synchronize, compared after free reduction; ordering/pairing checks on the synchronize functions',
+        decided='for WHFast (4 kernels x correctors x corrector2), 18 SABA types, 9 EOS splittings and MERCURIUS: k deferred steps followed by one '
+                'synchronise is the same reduced operator word as k safe-mode steps (k=1,2,3), with equal COM and time advance - this contains the '
+                'merged-half-step coefficient rule, the reversed corrector order and the cancellation of processors; a second synchronise applies no operator; '
+                'the synchronised flag is set by synchronise and cleared by a step; keep_unsynchronized: backup and restore of the Jacobi state bracket every '
+                'operator, copy equal byte counts covering all r->N particles, and leave the flag cleared; user callbacks in reb_simulation_step are '
+                'preceded by a synchronise and followed by the recalculation flags.',
+        not_decided='rounding-level equality of merged and split drifts; the EOS truncation claim; corrector2 is trusted to be inverted by inv=-1; WHFast512',
+        design_ref='3/C09'),
     'C12': dict(
         module='c12', level='other',
         technique='sibling/slice isomorphism over the clang AST: kind projections of transformation variants, xyz component renaming, MERCURIUS/TRACE twin comparison',
